@@ -2073,6 +2073,12 @@ class Engine:
             body = contract.region(fnode)
             if not body:
                 raise Unsupported("region %s of %s not found" % (contract.region_name, qual))
+            # locals the sidecar hands to the region under their source names: if such a name does not occur in the region any more (a renamed local), the sidecar does not
+            # describe this code -- nothing is known (downgrade), rather than a NameError obligation on the renamed name
+            occurring = {n.id for s_ in body for n in ast.walk(s_) if isinstance(n, ast.Name)}
+            for nm_ in getattr(contract, "live_ins", ()):
+                if nm_ not in occurring:
+                    raise Unsupported("the region does not mention the local `%s` the sidecar provides (renamed?)" % nm_)
         st = State(self)
         n0 = len(self.obligations)
         p0 = self.paths
